@@ -54,84 +54,140 @@ theorem C19_recursive (isDir : Bool) (input output : Str) (extra : List Str)
 
 /-! ### equivalence with the command line `cminx <input> -o <output> <extra…> [-r]` under `main`'s argument parser -/
 
-/-- option groups a caller forwards: `-p V`, `-e V`, `-s V` (long forms too); values do not look like options -/
+/-- what every option does to the accumulator before its own effect: once input paths have been seen, their run is over -/
+def optSeen (p : Parsed) : Parsed := if p.files.isEmpty then p else { p with filesDone := true }
+
+/-! the field updates of the parser, named (so that rewriting does not depend on how `{ p with … }` elaborates) -/
+def Parsed.setOutput (p : Parsed) (o : Option Str) : Parsed := { p with output := o }
+def Parsed.setRecursive (p : Parsed) (r : Bool) : Parsed := { p with recursive := r }
+def Parsed.setPfx (p : Parsed) (x : Option Str) : Parsed := { p with pfx := x }
+def Parsed.setSettings (p : Parsed) (x : Option Str) : Parsed := { p with settings := x }
+def Parsed.addExclude (p : Parsed) (v : Str) : Parsed := { p with excludes := p.excludes ++ [v] }
+
+/-- option groups a caller forwards: `-p V`, `-e V`, `-s V` (long forms too); the values are not option-like (argparse
+    refuses an option-like token as a value) -/
 inductive Groups : List Str → Prop where
   | nil : Groups []
-  | pfx (f v : Str) (rest : List Str) : (f = lit "-p" ∨ f = lit "--prefix") → Groups rest → Groups (f :: v :: rest)
-  | excl (f v : Str) (rest : List Str) : (f = lit "-e" ∨ f = lit "--exclude") → Groups rest → Groups (f :: v :: rest)
-  | sett (f v : Str) (rest : List Str) : (f = lit "-s" ∨ f = lit "--settings") → Groups rest → Groups (f :: v :: rest)
+  | pfx (f v : Str) (rest : List Str) : (f = lit "-p" ∨ f = lit "--prefix") → optLike v = false → Groups rest → Groups (f :: v :: rest)
+  | excl (f v : Str) (rest : List Str) : (f = lit "-e" ∨ f = lit "--exclude") → optLike v = false → Groups rest → Groups (f :: v :: rest)
+  | sett (f v : Str) (rest : List Str) : (f = lit "-s" ∨ f = lit "--settings") → optLike v = false → Groups rest → Groups (f :: v :: rest)
 
-/-- the effect of forwarded option groups on the parser's accumulator -/
+/-- the effect of forwarded option groups on the parser's accumulator: each group first closes the run of input paths
+    (`optSeen`), then sets its field -/
 def applyGroups : List Str → Parsed → Parsed
   | f :: v :: rest, p =>
-    if f = lit "-p" ∨ f = lit "--prefix" then applyGroups rest { p with pfx := some v }
-    else if f = lit "-e" ∨ f = lit "--exclude" then applyGroups rest { p with excludes := p.excludes ++ [v] }
-    else if f = lit "-s" ∨ f = lit "--settings" then applyGroups rest { p with settings := some v }
+    if f = lit "-p" ∨ f = lit "--prefix" then applyGroups rest ((optSeen p).setPfx (some v))
+    else if f = lit "-e" ∨ f = lit "--exclude" then applyGroups rest ((optSeen p).addExclude v)
+    else if f = lit "-s" ∨ f = lit "--settings" then applyGroups rest ((optSeen p).setSettings (some v))
     else p
   | _, p => p
+
+/-! `optSeen` reads `files` only and writes `filesDone` only -/
+
+theorem optSeen_idem (p : Parsed) : optSeen (optSeen p) = optSeen p := by
+  unfold optSeen; split <;> simp_all
+
+theorem optSeen_files (p : Parsed) : (optSeen p).files = p.files := by
+  unfold optSeen; split <;> rfl
+
+theorem optSeen_setPfx (p : Parsed) (x : Option Str) : optSeen (p.setPfx x) = (optSeen p).setPfx x := by
+  unfold optSeen Parsed.setPfx; split <;> rfl
+
+theorem optSeen_setSettings (p : Parsed) (x : Option Str) : optSeen (p.setSettings x) = (optSeen p).setSettings x := by
+  unfold optSeen Parsed.setSettings; split <;> rfl
+
+theorem optSeen_addExclude (p : Parsed) (v : Str) : optSeen (p.addExclude v) = (optSeen p).addExclude v := by
+  unfold optSeen Parsed.addExclude; split <;> rfl
+
+theorem optSeen_setOutput (p : Parsed) (x : Option Str) : optSeen (p.setOutput x) = (optSeen p).setOutput x := by
+  unfold optSeen Parsed.setOutput; split <;> rfl
+
+theorem optSeen_setRecursive (p : Parsed) (x : Bool) : optSeen (p.setRecursive x) = (optSeen p).setRecursive x := by
+  unfold optSeen Parsed.setRecursive; split <;> rfl
+
+/-- after an option, a non-empty run of input paths is closed -/
+theorem optSeen_filesDone (p : Parsed) (h : p.files ≠ []) : (optSeen p).filesDone = true := by
+  unfold optSeen; cases hf : p.files with
+  | nil => exact absurd hf h
+  | cons a l => simp
 
 /-! one step of the parser, with the literals kept folded -/
 
 theorem parseArgv_r (rest : List Str) (p : Parsed) :
-    parseArgv (lit "-r" :: rest) p = parseArgv rest { p with recursive := true } := by
-  rw [parseArgv.eq_def]; simp
+    parseArgv (lit "-r" :: rest) p = parseArgv rest ((optSeen p).setRecursive true) := by
+  rw [parseArgv.eq_def]; simp only [true_or, if_true, optSeen, Parsed.setRecursive]
 
-theorem parseArgv_o (v : Str) (rest : List Str) (p : Parsed) :
-    parseArgv (lit "-o" :: v :: rest) p = parseArgv rest { p with output := some v } := by
-  rw [parseArgv.eq_def]; simp +decide
+theorem parseArgv_o (v : Str) (hv : optLike v = false) (rest : List Str) (p : Parsed) :
+    parseArgv (lit "-o" :: v :: rest) p = parseArgv rest ((optSeen p).setOutput (some v)) := by
+  rw [parseArgv.eq_def]; simp +decide [hv, optSeen, Parsed.setOutput]
 
-theorem parseArgv_pfx (f v : Str) (rest : List Str) (p : Parsed) (hf : f = lit "-p" ∨ f = lit "--prefix") :
-    parseArgv (f :: v :: rest) p = parseArgv rest { p with pfx := some v } := by
-  rcases hf with rfl | rfl <;> (rw [parseArgv.eq_def]; simp +decide)
+theorem parseArgv_pfx (f v : Str) (rest : List Str) (p : Parsed) (hf : f = lit "-p" ∨ f = lit "--prefix")
+    (hv : optLike v = false) :
+    parseArgv (f :: v :: rest) p = parseArgv rest ((optSeen p).setPfx (some v)) := by
+  rcases hf with rfl | rfl <;> (rw [parseArgv.eq_def]; simp +decide [hv, optSeen, Parsed.setPfx])
 
-theorem parseArgv_sett (f v : Str) (rest : List Str) (p : Parsed) (hf : f = lit "-s" ∨ f = lit "--settings") :
-    parseArgv (f :: v :: rest) p = parseArgv rest { p with settings := some v } := by
-  rcases hf with rfl | rfl <;> (rw [parseArgv.eq_def]; simp +decide)
+theorem parseArgv_sett (f v : Str) (rest : List Str) (p : Parsed) (hf : f = lit "-s" ∨ f = lit "--settings")
+    (hv : optLike v = false) :
+    parseArgv (f :: v :: rest) p = parseArgv rest ((optSeen p).setSettings (some v)) := by
+  rcases hf with rfl | rfl <;> (rw [parseArgv.eq_def]; simp +decide [hv, optSeen, Parsed.setSettings])
 
-theorem parseArgv_excl (f v : Str) (rest : List Str) (p : Parsed) (hf : f = lit "-e" ∨ f = lit "--exclude") :
-    parseArgv (f :: v :: rest) p = parseArgv rest { p with excludes := p.excludes ++ [v] } := by
-  rcases hf with rfl | rfl <;> (rw [parseArgv.eq_def]; simp +decide)
+theorem parseArgv_excl (f v : Str) (rest : List Str) (p : Parsed) (hf : f = lit "-e" ∨ f = lit "--exclude")
+    (hv : optLike v = false) :
+    parseArgv (f :: v :: rest) p = parseArgv rest ((optSeen p).addExclude v) := by
+  rcases hf with rfl | rfl <;> (rw [parseArgv.eq_def]; simp +decide [hv, optSeen, Parsed.addExclude])
 
-/-- an argument that does not look like an option is a positional (file) argument -/
-theorem parseArgv_file (a : Str) (h : ¬ (a.head? = some '-' ∧ a.length > 1)) (rest : List Str) (p : Parsed) :
+/-- a token that is none of the parser's option strings differs from each of them -/
+theorem ne_of_not_known (a : Str) (hk : knownOpts.contains a = false) :
+    (a ≠ lit "-r" ∧ a ≠ lit "--recursive") ∧ (a ≠ lit "-o" ∧ a ≠ lit "--output") ∧ (a ≠ lit "-p" ∧ a ≠ lit "--prefix") ∧
+    (a ≠ lit "-s" ∧ a ≠ lit "--settings") ∧ (a ≠ lit "-e" ∧ a ≠ lit "--exclude") := by
+  have hi : ∀ o : Str, knownOpts.contains o = true → a ≠ o := fun o ho e => by rw [e, ho] at hk; cases hk
+  exact ⟨⟨hi _ (by decide), hi _ (by decide)⟩, ⟨hi _ (by decide), hi _ (by decide)⟩, ⟨hi _ (by decide), hi _ (by decide)⟩,
+    ⟨hi _ (by decide), hi _ (by decide)⟩, ⟨hi _ (by decide), hi _ (by decide)⟩⟩
+
+/-- a token that is no option string and does not look like an option is an input path, as long as the run of input paths is open -/
+theorem parseArgv_file (a : Str) (ha : dashy a = false) (hk : knownOpts.contains a = false) (rest : List Str) (p : Parsed)
+    (hd : p.filesDone = false) :
     parseArgv (a :: rest) p = parseArgv rest { p with files := p.files ++ [a] } := by
-  have hi : ∀ o : Str, (o.head? = some '-' ∧ o.length > 1) → a ≠ o := fun o ho e => h (e ▸ ho)
-  have h1 := hi (lit "-r") (by decide); have h2 := hi (lit "--recursive") (by decide)
-  have h3 := hi (lit "-o") (by decide); have h4 := hi (lit "--output") (by decide)
-  have h5 := hi (lit "-p") (by decide); have h6 := hi (lit "--prefix") (by decide)
-  have h7 := hi (lit "-s") (by decide); have h8 := hi (lit "--settings") (by decide)
-  have h9 := hi (lit "-e") (by decide); have h10 := hi (lit "--exclude") (by decide)
-  rw [parseArgv.eq_def]; simp only [h1, h2, h3, h4, h5, h6, h7, h8, h9, h10, h, or_self, if_false]
+  obtain ⟨⟨h1, h2⟩, ⟨h3, h4⟩, ⟨h5, h6⟩, ⟨h7, h8⟩, ⟨h9, h10⟩⟩ := ne_of_not_known a hk
+  rw [parseArgv.eq_def]; simp [h1, h2, h3, h4, h5, h6, h7, h8, h9, h10, ha, hd]
+
+/-- … and a usage error once the run is closed -/
+theorem parseArgv_file_done (a : Str) (ha : dashy a = false) (hk : knownOpts.contains a = false) (rest : List Str) (p : Parsed)
+    (hd : p.filesDone = true) : parseArgv (a :: rest) p = none := by
+  obtain ⟨⟨h1, h2⟩, ⟨h3, h4⟩, ⟨h5, h6⟩, ⟨h7, h8⟩, ⟨h9, h10⟩⟩ := ne_of_not_known a hk
+  rw [parseArgv.eq_def]; simp [h1, h2, h3, h4, h5, h6, h7, h8, h9, h10, ha, hd]
 
 theorem applyGroups_pfx (f v : Str) (rest : List Str) (p : Parsed) (hf : f = lit "-p" ∨ f = lit "--prefix") :
-    applyGroups (f :: v :: rest) p = applyGroups rest { p with pfx := some v } := by
+    applyGroups (f :: v :: rest) p = applyGroups rest ((optSeen p).setPfx (some v)) := by
   rw [applyGroups, if_pos hf]
 
 theorem applyGroups_excl (f v : Str) (rest : List Str) (p : Parsed) (hf : f = lit "-e" ∨ f = lit "--exclude") :
-    applyGroups (f :: v :: rest) p = applyGroups rest { p with excludes := p.excludes ++ [v] } := by
+    applyGroups (f :: v :: rest) p = applyGroups rest ((optSeen p).addExclude v) := by
   rcases hf with rfl | rfl <;> (rw [applyGroups]; simp +decide)
 
 theorem applyGroups_sett (f v : Str) (rest : List Str) (p : Parsed) (hf : f = lit "-s" ∨ f = lit "--settings") :
-    applyGroups (f :: v :: rest) p = applyGroups rest { p with settings := some v } := by
+    applyGroups (f :: v :: rest) p = applyGroups rest ((optSeen p).setSettings (some v)) := by
   rcases hf with rfl | rfl <;> (rw [applyGroups]; simp +decide)
 
 theorem parseArgv_groups (g : List Str) (hg : Groups g) (tail : List Str) (q : Parsed) :
     parseArgv (g ++ tail) q = parseArgv tail (applyGroups g q) := by
   induction hg generalizing q with
   | nil => simp [applyGroups]
-  | pfx f v rest hf _ ih => rw [List.cons_append, List.cons_append, parseArgv_pfx _ _ _ _ hf, applyGroups_pfx _ _ _ _ hf, ih]
-  | excl f v rest hf _ ih => rw [List.cons_append, List.cons_append, parseArgv_excl _ _ _ _ hf, applyGroups_excl _ _ _ _ hf, ih]
-  | sett f v rest hf _ ih => rw [List.cons_append, List.cons_append, parseArgv_sett _ _ _ _ hf, applyGroups_sett _ _ _ _ hf, ih]
+  | pfx f v rest hf hv _ ih => rw [List.cons_append, List.cons_append, parseArgv_pfx _ _ _ _ hf hv, applyGroups_pfx _ _ _ _ hf, ih]
+  | excl f v rest hf hv _ ih => rw [List.cons_append, List.cons_append, parseArgv_excl _ _ _ _ hf hv, applyGroups_excl _ _ _ _ hf, ih]
+  | sett f v rest hf hv _ ih => rw [List.cons_append, List.cons_append, parseArgv_sett _ _ _ _ hf hv, applyGroups_sett _ _ _ _ hf, ih]
 
-/-- option groups touch only prefix / settings / excludes, so they commute with setting the other fields -/
-theorem applyGroups_frame (g : List Str) (q : Parsed) (fs : List Str) (o : Option Str) (r : Bool) :
-    applyGroups g { q with files := fs, output := o, recursive := r } =
-      { applyGroups g q with files := fs, output := o, recursive := r } := by
+/-- the frame of option groups: they read `files` and write prefix / settings / excludes / `filesDone`, so they commute with
+    every update `h` of the accumulator that commutes with those steps -/
+theorem applyGroups_comm (h : Parsed → Parsed) (h0 : ∀ p, optSeen (h p) = h (optSeen p))
+    (h1 : ∀ p x, (h p).setPfx x = h (p.setPfx x)) (h2 : ∀ p x, (h p).addExclude x = h (p.addExclude x))
+    (h3 : ∀ p x, (h p).setSettings x = h (p.setSettings x)) (g : List Str) (q : Parsed) :
+    applyGroups g (h q) = h (applyGroups g q) := by
   fun_induction applyGroups g q with
-  | case1 f v rest p h ih => rw [applyGroups, if_pos h]; exact ih
-  | case2 f v rest p h1 h ih => rw [applyGroups, if_neg h1, if_pos h]; exact ih
-  | case3 f v rest p h1 h2 h ih => rw [applyGroups, if_neg h1, if_neg h2, if_pos h]; exact ih
-  | case4 f v rest p h1 h2 h3 => rw [applyGroups, if_neg h1, if_neg h2, if_neg h3]
+  | case1 f v rest p hf ih => rw [applyGroups_pfx _ _ _ _ hf, h0, h1]; exact ih
+  | case2 f v rest p _ hf ih => rw [applyGroups_excl _ _ _ _ hf, h0, h2]; exact ih
+  | case3 f v rest p _ _ hf ih => rw [applyGroups_sett _ _ _ _ hf, h0, h3]; exact ih
+  | case4 f v rest p n1 n2 n3 => rw [applyGroups, if_neg n1, if_neg n2, if_neg n3]
   | case5 l p hl =>
     cases l with
     | nil => simp [applyGroups]
@@ -139,33 +195,119 @@ theorem applyGroups_frame (g : List Str) (q : Parsed) (fs : List Str) (o : Optio
       | nil => simp [applyGroups]
       | cons b l => exact absurd rfl (hl a b l)
 
+/-- option groups commute with setting the output directory … -/
+theorem applyGroups_setOutput (g : List Str) (q : Parsed) (o : Option Str) :
+    applyGroups g (q.setOutput o) = (applyGroups g q).setOutput o :=
+  applyGroups_comm (·.setOutput o) (fun p => optSeen_setOutput p o) (fun _ _ => rfl) (fun _ _ => rfl) (fun _ _ => rfl) g q
+
+/-- … with setting the recursive flag … -/
+theorem applyGroups_setRecursive (g : List Str) (q : Parsed) (r : Bool) :
+    applyGroups g (q.setRecursive r) = (applyGroups g q).setRecursive r :=
+  applyGroups_comm (·.setRecursive r) (fun p => optSeen_setRecursive p r) (fun _ _ => rfl) (fun _ _ => rfl) (fun _ _ => rfl) g q
+
+/-- … and with closing the run of input paths -/
+theorem applyGroups_optSeen (g : List Str) (q : Parsed) : applyGroups g (optSeen q) = optSeen (applyGroups g q) :=
+  applyGroups_comm optSeen (fun _ => rfl) (fun p x => (optSeen_setPfx p x).symm) (fun p x => (optSeen_addExclude p x).symm)
+    (fun p x => (optSeen_setSettings p x).symm) g q
+
+/-- option groups leave input paths, output directory and recursive flag alone -/
 theorem applyGroups_fields (g : List Str) (q : Parsed) :
     (applyGroups g q).files = q.files ∧ (applyGroups g q).output = q.output ∧ (applyGroups g q).recursive = q.recursive := by
-  have := applyGroups_frame g q q.files q.output q.recursive
-  have e : ({ q with files := q.files, output := q.output, recursive := q.recursive } : Parsed) = q := by cases q; rfl
-  rw [e] at this
-  refine ⟨?_, ?_, ?_⟩ <;> (rw [this])
+  fun_induction applyGroups g q with
+  | case1 f v rest p h ih => rw [ih.1, ih.2.1, ih.2.2]; unfold optSeen Parsed.setPfx; split <;> exact ⟨rfl, rfl, rfl⟩
+  | case2 f v rest p h1 h ih => rw [ih.1, ih.2.1, ih.2.2]; unfold optSeen Parsed.addExclude; split <;> exact ⟨rfl, rfl, rfl⟩
+  | case3 f v rest p h1 h2 h ih => rw [ih.1, ih.2.1, ih.2.2]; unfold optSeen Parsed.setSettings; split <;> exact ⟨rfl, rfl, rfl⟩
+  | case4 f v rest p h1 h2 h3 => exact ⟨rfl, rfl, rfl⟩
+  | case5 l p hl => exact ⟨rfl, rfl, rfl⟩
 
-/-- the invocation CMake builds and the documented command line `cminx <input> -o <output> <extra…> [-r]` are parsed to
-    the same result by `main`'s argument parser -/
-theorem C19_equiv (isDir : Bool) (input output : Str) (extra : List Str)
+/-- an option-like token after `-o` is a usage error, whatever precedes and follows -/
+theorem parseArgv_o_none (v : Str) (hv : optLike v = true) (rest : List Str) (p : Parsed) :
+    parseArgv (lit "-o" :: v :: rest) p = none := by
+  rw [parseArgv.eq_def]; simp +decide [hv]
+
+/-- `C19_equiv` when `output` can be the value of `-o`: both command lines reach the end with the same accumulator -/
+theorem C19_equiv_value (isDir : Bool) (input output : Str) (extra : List Str)
     (hg : Groups extra) (hv : ∀ e ∈ extra, e ≠ [] ∧ ';' ∉ e)
-    (hin : ¬ (input.head? = some '-' ∧ input.length > 1)) :
+    (hin : dashy input = false) (hink : knownOpts.contains input = false) (hout : optLike output = false) :
     parseArgv (genArgv isDir input output extra) {} =
       parseArgv ([input, lit "-o", output] ++ extra ++ (if isDir then [lit "-r"] else [])) {} := by
   rw [C19_argv isDir input output extra hv]
+  have hfile := fun rest => parseArgv_file input hin hink rest {} rfl
+  have hgr := parseArgv_groups extra hg
   cases isDir
   · simp only [Bool.false_eq_true, if_false, List.append_nil, List.cons_append, List.nil_append]
-    rw [parseArgv_file input hin, parseArgv_file input hin, parseArgv_groups extra hg, parseArgv_o, parseArgv_o]
-    have e2 := parseArgv_groups extra hg [] ({ files := [] ++ [input], output := some output } : Parsed)
-    rw [List.append_nil] at e2; rw [e2]
-    rw [applyGroups_frame extra {} ([] ++ [input]) none false,
-        applyGroups_frame extra {} ([] ++ [input]) (some output) false]
+    have e2 := hgr []
+    simp only [List.append_nil] at e2
+    rw [hfile, hfile, hgr, parseArgv_o _ hout, parseArgv_o _ hout, e2, applyGroups_setOutput, applyGroups_optSeen]
   · simp only [if_true, List.cons_append, List.nil_append]
-    rw [parseArgv_file input hin, parseArgv_file input hin, parseArgv_r, parseArgv_groups extra hg, parseArgv_o,
-        parseArgv_o, parseArgv_groups extra hg, parseArgv_r]
-    rw [applyGroups_frame extra {} ([] ++ [input]) none true,
-        applyGroups_frame extra {} ([] ++ [input]) (some output) false]
+    rw [hfile, hfile, parseArgv_r, hgr, parseArgv_o _ hout, parseArgv_o _ hout, hgr, parseArgv_r,
+        applyGroups_setRecursive, applyGroups_setOutput, optSeen_setRecursive, optSeen_setOutput]
+    rfl
+
+/-- the invocation CMake builds and the documented command line `cminx <input> -o <output> <extra…> [-r]` are parsed to
+    the same result by `main`'s argument parser, for an `input` that is a positional (no option string, not option-like).
+    When `output` cannot be the value of `-o` (it is option-like) both command lines are the same usage error -/
+theorem C19_equiv (isDir : Bool) (input output : Str) (extra : List Str)
+    (hg : Groups extra) (hv : ∀ e ∈ extra, e ≠ [] ∧ ';' ∉ e)
+    (hin : dashy input = false) (hink : knownOpts.contains input = false) :
+    parseArgv (genArgv isDir input output extra) {} =
+      parseArgv ([input, lit "-o", output] ++ extra ++ (if isDir then [lit "-r"] else [])) {} := by
+  cases hout : optLike output with
+  | false => exact C19_equiv_value isDir input output extra hg hv hin hink hout
+  | true =>
+    rw [C19_argv isDir input output extra hv]
+    have hfile := fun rest => parseArgv_file input hin hink rest {} rfl
+    have hgr := parseArgv_groups extra hg
+    cases isDir
+    · simp only [Bool.false_eq_true, if_false, List.append_nil, List.cons_append, List.nil_append]
+      rw [hfile, hfile, hgr, parseArgv_o_none _ hout, parseArgv_o_none _ hout]
+    · simp only [if_true, List.cons_append, List.nil_append]
+      rw [hfile, hfile, parseArgv_r, hgr, parseArgv_o_none _ hout, parseArgv_o_none _ hout]
+
+/-- with an `output` that can be the value of `-o`, the common result is a success: the command line is accepted -/
+theorem C19_equiv_accepted (isDir : Bool) (input output : Str) (extra : List Str)
+    (hg : Groups extra) (hv : ∀ e ∈ extra, e ≠ [] ∧ ';' ∉ e)
+    (hin : dashy input = false) (hink : knownOpts.contains input = false) (hout : optLike output = false) :
+    (parseArgv (genArgv isDir input output extra) {}).isSome = true := by
+  rw [C19_equiv isDir input output extra hg hv hin hink]
+  have hfile := fun rest => parseArgv_file input hin hink rest {} rfl
+  have hgr := parseArgv_groups extra hg
+  have hfiles : ∀ q : Parsed, q.files ≠ [] → (parseArgv [] q).isSome = true := by
+    intro q hq; rw [parseArgv.eq_def]; cases hf : q.files with
+    | nil => exact absurd hf hq
+    | cons a l => simp [hf]
+  cases isDir
+  · simp only [Bool.false_eq_true, if_false, List.append_nil, List.cons_append, List.nil_append]
+    have e2 := hgr []
+    simp only [List.append_nil] at e2
+    rw [hfile, parseArgv_o _ hout, e2]
+    apply hfiles; rw [(applyGroups_fields _ _).1]
+    simp [Parsed.setOutput, optSeen_files]
+  · simp only [if_true, List.cons_append, List.nil_append]
+    rw [hfile, parseArgv_o _ hout, hgr, parseArgv_r]
+    apply hfiles
+    simp [Parsed.setRecursive, Parsed.setOutput, optSeen_files, (applyGroups_fields _ _).1]
+
+/-- an extra argument that is itself a positional — a second input path handed to `cminx_gen_rst` of a *directory* — makes the
+    generated command line a usage error: `-r` stands between the two input paths, and `files` is one contiguous run -/
+theorem C19_positional_extra_rejected (input output e : Str) (rest : List Str)
+    (hin : dashy input = false) (hink : knownOpts.contains input = false)
+    (he : dashy e = false) (hek : knownOpts.contains e = false) (hne : e ≠ []) (hs : ';' ∉ e) :
+    parseArgv (genArgv true input output (e :: rest)) {} = none := by
+  simp only [genArgv, flattenExtra, List.flatMap_cons, C19_arg_verbatim e hne hs, if_true, List.cons_append, List.nil_append]
+  rw [parseArgv_file input hin hink _ {} rfl, parseArgv_r]
+  exact parseArgv_file_done e he hek _ _ (optSeen_filesDone _ (by simp))
+
+/-- the counterpart for an input *file*: nothing stands between `input` and the extra, which becomes a second input path -/
+theorem C19_positional_extra_second_input (input output e : Str) (rest : List Str)
+    (hin : dashy input = false) (hink : knownOpts.contains input = false)
+    (he : dashy e = false) (hek : knownOpts.contains e = false) (hne : e ≠ []) (hs : ';' ∉ e) :
+    parseArgv (genArgv false input output (e :: rest)) {} =
+      parseArgv (flattenExtra rest ++ [lit "-o", output]) { files := [input, e] } := by
+  simp only [genArgv, flattenExtra, List.flatMap_cons, C19_arg_verbatim e hne hs, Bool.false_eq_true, if_false, List.cons_append,
+    List.nil_append, List.append_nil]
+  rw [parseArgv_file input hin hink _ {} rfl, parseArgv_file e he hek _ _ rfl]
+  rfl
 
 /-- `COMMAND_ERROR_IS_FATAL ANY`: a failing CMinx run makes the CMake call fail -/
 theorem C19_fatal (status : Int) : cmakeFails status = true ↔ status ≠ 0 := by simp [cmakeFails]
@@ -176,10 +318,20 @@ theorem C19_K5_counterexample :
 
 /-! non-vacuity -/
 example : Groups [lit "-p", lit "PFX", lit "-e", lit "sub/", lit "--settings", lit "s.yaml"] :=
-  .pfx _ _ _ (Or.inl rfl) (.excl _ _ _ (Or.inl rfl) (.sett _ _ _ (Or.inr rfl) .nil))
+  .pfx _ _ _ (Or.inl rfl) (by decide) (.excl _ _ _ (Or.inl rfl) (by decide) (.sett _ _ _ (Or.inr rfl) (by decide) .nil))
 example : genArgv true (lit "/src/dir") (lit "/out") [lit "-p", lit "PFX"] =
     [lit "/src/dir", lit "-r", lit "-p", lit "PFX", lit "-o", lit "/out"] := by decide
 example : parseArgv (genArgv true (lit "/src/dir") (lit "/out") [lit "-p", lit "PFX", lit "-e", lit "x"]) {} =
-    some { files := [lit "/src/dir"], output := some (lit "/out"), recursive := true, pfx := some (lit "PFX"), excludes := [lit "x"] } := by decide
+    some { files := [lit "/src/dir"], output := some (lit "/out"), recursive := true, pfx := some (lit "PFX"), excludes := [lit "x"],
+           filesDone := true } := by decide +kernel
+/-! a second input path as extra: refused for a directory, accepted (as a second input path) for a file -/
+example : parseArgv (genArgv true (lit "/src/dir") (lit "/out") [lit "/src/other"]) {} = none := by decide +kernel
+example : parseArgv (genArgv false (lit "a.cmake") (lit "/out") [lit "b.cmake"]) {} =
+    some { files := [lit "a.cmake", lit "b.cmake"], output := some (lit "/out"), filesDone := true } := by decide +kernel
+/-! K5 under the corrected parser: the split value `a;b` leaves `b` as a positional after an option — a usage error -/
+example : parseArgv (genArgv false (lit "in") (lit "/out") [lit "-e", lit "a;b"]) {} = none := by decide +kernel
+/-! the hypotheses of `C19_equiv` / `C19_equiv_accepted` on `input` and `output` hold for ordinary paths, and also for `-` and `-1` -/
+example : dashy (lit "/src/dir") = false ∧ knownOpts.contains (lit "/src/dir") = false ∧ optLike (lit "/out") = false := by decide
+example : dashy (lit "-") = false ∧ dashy (lit "-1") = false ∧ optLike [] = false := by decide
 
 end Cminx
